@@ -21,7 +21,7 @@ THEOREMS = [
     'Lcdb.C04Conc.committed_changes_only_in_commit',
 ]
 IMPORTS = ['LcdbModel.Props.C04', 'LcdbModel.Props.C04Conc']
-TARGETS = ['LcdbModel.Props.C04', 'LcdbModel.Props.C04Conc']
+TARGETS = ['LcdbModel.Props.C04', 'LcdbModel.Props.C04Conc', 'conccheck']
 
 
 def run(tier):
@@ -36,6 +36,9 @@ def run(tier):
     run_cases(chk, cases, unit)
     import wl_checks
     wl_checks.c04_part(chk, tier, rng)
+    # batches seen whole or not at all by concurrent snapshot readers and scans; every critical section replayed on the Conc model
+    import conccheck
+    conccheck.conc_part(chk, tier, rng.fork('conc'), {'snapshot', 'scan', 'final'}, scale=0.5)
     return chk.finish()
 
 
